@@ -2,26 +2,32 @@
    Statements + `exact` only; proofs in Proofs/C06*.v.  The model (Model/C06.v: save, load,
    pair_notes, sort_notes, tempo_list, adjust_time) is tied to partitura/io/exportmidi.py and
    importmidi.py by the correspondence run by harness/props/c06.py on every check. *)
-From PV Require Import Lib.Base Lib.Round Model.C12 Model.C06 Proofs.C06_lib Proofs.C06.
+From PV Require Import Lib.Base Lib.Round Model.C12 Model.C06 Proofs.C06_lib Proofs.C06 Proofs.C06_pair.
 From Coq Require Import QArith Qabs Sorted Permutation.
 #[local] Open Scope Z_scope.
 
-(* O1a  the exporter's tick is a nearest tick of the time in seconds -- all ppq, mpq, times *)
-Theorem tick_of_sec_nearest : forall ppq mpq t,
-  (Qabs (inject_Z (1000000 * ppq) * t / inject_Z mpq - inject_Z (sec_to_tick ppq mpq t)) <= 1 # 2)%Q.
+(* O1a  the exporter's tick is a nearest tick of the time in seconds -- all ppq, mpq, times, and
+   whatever is done with a time exactly half way between two ticks (rule) *)
+Theorem tick_of_sec_nearest : forall rule ppq mpq t,
+  (Qabs (inject_Z (1000000 * ppq) * t / inject_Z mpq - inject_Z (sec_to_tick_r rule ppq mpq t)) <= 1 # 2)%Q.
 Proof. exact tick_of_sec_nearest_lemma. Qed.
 Print Assumptions tick_of_sec_nearest.
 
+(* rule 0 is round-half-to-even: np.round, and the conversion Model.C12 proves things about *)
+Theorem sec_to_tick_rule0 : forall ppq mpq t, sec_to_tick_r 0 ppq mpq t = sec_to_tick ppq mpq t.
+Proof. exact sec_to_tick_rule0_lemma. Qed.
+Print Assumptions sec_to_tick_rule0.
+
 (* O1b  tick -> seconds -> tick is the identity (exact arithmetic) *)
-Theorem tick_roundtrip : forall ppq mpq k,
-  0 < ppq -> 0 < mpq -> sec_to_tick ppq mpq (tick_to_sec ppq mpq k) = k.
+Theorem tick_roundtrip : forall rule ppq mpq k,
+  0 < ppq -> 0 < mpq -> sec_to_tick_r rule ppq mpq (tick_to_sec ppq mpq k) = k.
 Proof. exact tick_roundtrip_lemma. Qed.
 Print Assumptions tick_roundtrip.
 
 (* O1c  seconds -> tick -> seconds moves a time by at most half a tick *)
-Theorem sec_roundtrip_halftick : forall ppq mpq s,
+Theorem sec_roundtrip_halftick : forall rule ppq mpq s,
   0 < ppq -> 0 < mpq ->
-  (Qabs (tick_to_sec ppq mpq (sec_to_tick ppq mpq s) - s) <= inject_Z mpq / inject_Z (2 * (1000000 * ppq)))%Q.
+  (Qabs (tick_to_sec ppq mpq (sec_to_tick_r rule ppq mpq s) - s) <= inject_Z mpq / inject_Z (2 * (1000000 * ppq)))%Q.
 Proof. exact sec_roundtrip_halftick_lemma. Qed.
 Print Assumptions sec_roundtrip_halftick.
 
@@ -59,13 +65,33 @@ Theorem pairing_next_off : forall pre t1 ch p v mid t2 m2 post,
 Proof. exact pairing_next_off_lemma. Qed.
 Print Assumptions pairing_next_off.
 
-(* pairing inverts event generation -- proved for notes written one after the other (any number,
-   any keys, any ticks); polyphonic interleavings are covered by pairing_next_off and the
-   correspondence only *)
-Theorem pairing_inverts_sequential_partial : forall ns,
-  Forall (fun n => 0 < ln_vel n) ns -> pair_notes [] (flat_map note_events ns) = ns.
-Proof. exact pairing_inverts_sequential_lemma. Qed.
-Print Assumptions pairing_inverts_sequential_partial.
+(* O3, whole track: the message loop, restricted to one (channel, pitch), is the message loop run on
+   the messages of that (channel, pitch) alone -- keys never interfere, for ANY message list and state *)
+Theorem pairing_per_key : forall k l s,
+  filter (on_key k) (pair_notes s l) = pair_notes (restrict s k) (proj k l).
+Proof. exact pair_notes_key. Qed.
+Print Assumptions pairing_per_key.
+
+(* pairing inverts the writing of notes, for ANY interleaving: ws are notes (velocity > 0) each with
+   the message that ends it (note-off of any velocity, or zero-velocity note-on, of its channel and
+   pitch); l is any message list -- other messages anywhere -- in which, for every (channel, pitch),
+   the note messages of that key are those of the notes of the key written one after the other
+   (= no two notes of one channel and pitch overlap; at a common tick the earlier note's off comes
+   before the later note's on).  Then the message loop returns exactly the notes. *)
+Theorem pairing_inverts : forall ws l,
+  Forall wnote_ok ws -> well_interleaved ws l -> Permutation (pair_notes [] l) (map fst ws).
+Proof. exact pairing_inverts_lemma. Qed.
+Print Assumptions pairing_inverts.
+
+(* the hypotheses are satisfiable by a polyphonic interleaving: two keys sounding together, a third
+   note re-striking the first key at the tick it ends, a control change and a stray tempo in between *)
+Example pairing_inverts_example :
+  let ws := [(mkLN 60 64 0 0 10, NoteOff 0 60 0); (mkLN 64 70 1 5 20, NoteOn 1 64 0); (mkLN 60 30 0 10 12, NoteOff 0 60 99)] in
+  let l := [(0, NoteOn 0 60 64); (5, NoteOn 1 64 70); (7, CC 0 64 127); (10, NoteOff 0 60 0); (10, NoteOn 0 60 30);
+            (11, Tempo 400000); (12, NoteOff 0 60 99); (20, NoteOn 1 64 0)] in
+  Forall wnote_ok ws /\ well_interleaved ws l /\ pair_notes [] l = [mkLN 60 64 0 0 10; mkLN 60 30 0 10 12; mkLN 64 70 1 5 20].
+Proof. exact pairing_inverts_example_lemma. Qed.
+Print Assumptions pairing_inverts_example.
 
 (* O4  ids n0, n1, ... are given along the sorted list: a permutation of the paired notes, ordered
    lexicographically by (onset, pitch, offset, channel) (the track is constant within a part) *)
